@@ -100,6 +100,7 @@ type State struct {
 	pure     bool
 	nonnil   map[*smt.Term]bool
 	streams  []stream
+	rw       map[*smt.Term]*smt.Term // rewrites: unfolded fold applications -> their stepped values
 }
 
 // stream ties a read-only byte slice to a ghost sequence: slice[j] == S[base+j].
@@ -137,6 +138,12 @@ func (s *State) clone() *State {
 	}
 	t.ro = s.ro
 	t.streams = s.streams
+	if len(s.rw) > 0 {
+		t.rw = make(map[*smt.Term]*smt.Term, len(s.rw))
+		for k, v := range s.rw {
+			t.rw[k] = v
+		}
+	}
 	t.nonnil = make(map[*smt.Term]bool, len(s.nonnil))
 	for k, v := range s.nonnil {
 		t.nonnil[k] = v
